@@ -31,6 +31,7 @@ InitSt == [hs |-> TRUE,            \* still in the opening handshake
            chclosed |-> {},        \* handles whose close() was already called
            lastwire |-> "",        \* method name of the last client frame on the wire
            finalwire |-> FALSE,    \* a Connection.Close / CloseOk has been written
+           owedck |-> {},          \* channel ids with a client Channel.Close on the wire that the server has not answered yet
            cclosed |-> FALSE,      \* the client's own Connection.Close was queued (close point passed)
            pendw |-> FALSE,        \* the next transport write fails
            blkq |-> <<>>,          \* blocked-listener registrations sent, not yet handled
@@ -279,10 +280,16 @@ TFrame ==
             IN \E taken \in (IF mayBranch THEN {FALSE, TRUE} ELSE {FALSE}) :
                LET w0 == IF taken THEN [w EXCEPT !.hs[hT].repq = Tail(@)] ELSE w
                    w2 == IF ok THEN Dispatch([w0 EXCEPT !.srvq = Tail(@)], f) ELSE w
+                   isCk == ok /\ f.type = "method" /\ f.m = "channel.close-ok"
                IN /\ Step(<< <<"C06:dispatch-order", ok>>,
-                             <<"C05:no-dispatch-after-death", ~w.gone>> >>)
+                             <<"C05:no-dispatch-after-death", ~w.gone>>,
+                             \* the CloseOk the server owes for a Channel.Close of an EARLIER holder of this id (closes
+                             \* crossed, the id was handed out again) must not end up with the id's new holder
+                             <<"C04:foreign-reply",
+                               ~(isCk /\ f.ch \in st.owedck /\ hT # "" /\ hT \notin st.chclosed)>> >>)
                   /\ w' = w2
-                  /\ st' = [IoStep(w, w2) EXCEPT !.prepop = IF taken THEN Put(@, hT, Head(w.hs[hT].repq)) ELSE @]
+                  /\ st' = [IoStep(w, w2) EXCEPT !.prepop = IF taken THEN Put(@, hT, Head(w.hs[hT].repq)) ELSE @,
+                                                   !.owedck = IF isCk THEN @ \ {f.ch} ELSE @]
                   /\ UNCHANGED <<ops, seen>>
 
 \* a client frame on the wire must be the oldest queued frame
@@ -333,6 +340,7 @@ TC2s ==
                /\ w' = IF ok THEN Wrote(w) ELSE w
                /\ st' = [IoStep(w, IF ok THEN Wrote(w) ELSE w)
                          EXCEPT !.lastwire = IF e.type = "method" THEN e.m ELSE e.type,
+                                   !.owedck = IF e.type = "method" /\ e.m = "channel.close" THEN @ \cup {e.ch} ELSE @,
                                    !.finalwire = @ \/ (e.type = "method" /\ e.ch = 0 /\
                                                        e.m \in {"connection.close", "connection.close-ok"})]
                /\ UNCHANGED <<ops, seen>>
